@@ -7,6 +7,7 @@ uint64_t nondet_u64(void);
 uint8_t  nondet_u8(void);
 int64_t  nondet_i64(void);
 bool     nondet_bool(void);
+float    nondet_float(void);
 void     __vf_assert(bool c, int id); // property assertion (ir2c turns it into __CPROVER_assert with the id in the text)
 void     __vf_assume(bool c);
 void     __vf_set_now(int64_t t);     // model steady_clock reading
